@@ -344,13 +344,11 @@ def make_wild(eng, n, alphabet=None):
             raise core.PathStop()
         else:
             raise Unsupported("z3 unknown on the regex inequivalence query")
-        if isinstance(p, SStr) or "*" in p or "\\" in p:
-            has = False
-            for ch in (p.cps if isinstance(p, SStr) else map(ord, p)):
-                if (isinstance(ch, int) and ch in (42, 92)) or (not isinstance(ch, int) and (eng.known.get(_aid(ch, 42), (False,))[0] or eng.known.get(_aid(ch, 92), (False,))[0])):
-                    has = True
-            if has:
+        for ch in (p.cps if isinstance(p, SStr) else map(ord, p)):
+            v = ch if isinstance(ch, int) else eng.cp_value(ch.id)
+            if v in (42, 92):
                 eng.note("wild_nontrivial")
+                break
         return "equivalent"
 
     return body
